@@ -106,7 +106,9 @@ def run_verus(unit, path, rlimit=None, timeout=600, extra=None):
             if any(pat in msg for pat in UNDECIDED_PATTERNS):
                 where = prim[0]["line_start"] if prim else 0
                 info = unit.linemap[where - 1] if 0 < where <= len(unit.linemap) else {}
-                undecided.append(f"rlimit exceeded in {info.get('fn')} ({unit.name}:{where})")
+                # a vacuity guard that runs out of resources could not prove `false`: that is the expected outcome
+                if not str(info.get('fn') or "").startswith("vacuity_"):
+                    undecided.append(f"rlimit exceeded in {info.get('fn')} ({unit.name}:{where})")
             else:
                 where = prim[0]["line_start"] if prim else 0
                 undecided.append(f"verus front-end error at {unit.name}:{where}: {msg}")
